@@ -186,6 +186,58 @@ def run(repo, rep, tier):
                             f"`{fld}` (the empty aggregator is not an identity for +)", stmt=f"{fld}: NaN discipline")
         # ---------------- R1.4
         zero_rule(repo, rep, r4, c, m)
+    # ---------------- R1.5 for the extrema: fill(datum) agrees with the merge helper applied to (current extremum, datum)
+    from ..interp import NAN as INAN, OrderLine, Unsup
+    from ..routing import Config, _common, numeric_regions, run_fill
+    for cname, fld in (("Minimize", "min"), ("Maximize", "max")):
+        c = repo.cls(cname)
+        add = repo.own_method(c, "__add__")
+        fill = repo.own_method(c, "fill")
+        helper = None
+        for n in walk_local_stmt(add.node):
+            if isinstance(n, ast.Call) and isinstance(n.func, ast.Name) and len(n.args) == 2 and \
+                    {ast.unparse(a) for a in n.args} == {f"{add.params[0]}.{fld}", f"{add.params[1]}.{fld}"}:
+                h = repo.resolve_name(add.module, n.func.id)
+                if isinstance(h, FuncInfo):
+                    helper = (h, ast.unparse(n.args[0]) == f"{add.params[0]}.{fld}")
+        if helper is None:
+            continue   # R1.3 reports a missing helper / guard
+        table = helper_table(helper[0])
+        line = OrderLine(["cur"])
+        for cur_label, cur in (("nan", INAN), ("num", line.pos_of("cur"))):
+            cfg = Config(c, line, (lambda cur=cur: _common({fld: cur})), numeric_regions(line), lambda l, q: set(), {}, f"{cname} ({fld} {cur_label})")
+            for label, q in cfg.regions:
+                try:
+                    paths = run_fill(repo, cfg, label, q, "pos")
+                except Unsup as e:
+                    raise AnalysisError(f"{fill.construct}: {e}")
+                qc = "nan" if q is INAN else "num"
+                if cur_label == "num" and qc == "num":
+                    order = "lt" if cur.k < q.k else ("gt" if cur.k > q.k else "eq")   # x = current, y = datum
+                else:
+                    order = "na"
+                key = (cur_label, qc, order) if helper[1] else (qc, cur_label, {"lt": "gt", "gt": "lt"}.get(order, order))
+                hres = table.get(key)
+                if not helper[1]:
+                    hres = {"x": "y", "y": "x"}.get(hres, hres)
+                for p in paths:
+                    stores = [a for a in p.accs if a[1] == fld]
+                    newv = stores[-1][2] if stores else cur
+                    got = "y" if newv is q else ("x" if newv is cur else "?")
+                    if cur is INAN and q is INAN:
+                        ok = True
+                    elif order == "eq":
+                        ok = got in ("x", "y")
+                    elif hres == "nan":
+                        ok = newv is INAN
+                    else:
+                        ok = got == hres
+                    r5.ob(ok, f"{cname}: {fld} {cur_label}, datum {label}: fill keeps {got}, {helper[0].name} gives {hres}")
+                    if not ok:
+                        rep.finding("R1.5", fill, fill.node, f"{cname}.fill with `{fld}` {('NaN (empty)' if cur is INAN else 'a number')} and a datum in "
+                                    f"region `{label}` keeps {'the datum' if got == 'y' else 'the old value' if got == 'x' else repr(newv)}, but merging "
+                                    f"the singleton of that datum through `{helper[0].name}` gives {'the datum' if hres == 'y' else 'the old value' if hres == 'x' else hres}: "
+                                    f"fill and + disagree, so chunked aggregation differs from one pass", stmt=f"{fld}: fill vs {helper[0].name}, {cur_label}/{label.replace(' ', '')}")
     # ---------------- R1.6
     dm = repo.modules.get("histogrammar.defs")
     for name in ("combine", "increment"):
